@@ -244,6 +244,102 @@ def run_session(chunks, eof, default, split_at=None):
     return obs
 
 
+RECEIPT_VARIANTS = ('plain', 'offset99', 'offset96_minus', 'err_text', 'err_word', 'err_65533', 'err_65535', 'err_huge', 'err_negative', 'no_err',
+                    'no_stat', 'dates_with_seconds', 'neterr_tlv_high')
+
+
+def segment_receipt_session(variant, persist):
+    """a two-segment submit_sm is accepted (ids x1, x2); the receipt for x1 is unusual in the way `variant` says; a probe and the receipt
+    for x2 follow. With `persist` the correlator writes its stores to a directory (every update is serialised to JSON)."""
+    import shutil
+    import tempfile
+    from aiosmpplib.protocol import SubmitSm
+    from aiosmpplib.state import PhoneNumber
+    from aiosmpplib.correlator import SimpleCorrelator
+    loop = vsess.VLoop()
+    asyncio.set_event_loop(loop)
+    smsc = vsess.FakeSMSC(loop)
+    undo = vsess.install(loop, smsc)
+    tmp = tempfile.mkdtemp(prefix='av_c05_') if persist else None
+    obs = {'answers': [], 'submits': 0}
+    try:
+        corr = SimpleCorrelator('c5', directory=tmp) if persist else SimpleCorrelator('c5')
+        esme, hook = vsess.quiet_esme(enquire_link_interval=5000.0, socket_timeout=60.0, correlator=corr)
+
+        def receipt(seq, mid, v):
+            err = {'err_text': 'err:0A1', 'err_word': 'err:EXPIRED', 'err_65533': 'err:65533', 'err_65535': 'err:65535', 'err_huge': 'err:' + '9' * 30,
+                   'err_negative': 'err:-05', 'no_err': ''}.get(v, 'err:000')
+            stat = '' if v == 'no_stat' else 'stat:DELIVRD '
+            dates = 'submit date:240101120005 done date:240101120107' if v == 'dates_with_seconds' else 'submit date:2401011200 done date:2401011201'
+            text = f'id:{mid} sub:001 dlvrd:001 {dates} {stat}{err} Text:hello'.encode()
+            sched = {'offset99': b'210101000000099+', 'offset96_minus': b'210101000000096-'}.get(v, b'')
+            tl = smppref.tlv(0x0423, bytes([3, 0x80, 0xFF])) if v == 'neterr_tlv_high' else b''
+            return smppref.encode_sm(5, seq, src=b'1', dst=b'2', esm_class=0x04, short_message=text, schedule=sched, tlvs=tl)
+
+        def on_pdu(conn, pdu):
+            for p in vsess.split_pdus(pdu)[0]:
+                cmd, seq = struct.unpack('>I', p[4:8])[0], struct.unpack('>I', p[12:16])[0]
+                if cmd in (1, 2, 9):
+                    conn.send(vsess.bind_resp_for(p))
+                    if conn.index > 0:
+                        conn.send(smppref.header(0x15, 0, 424242), delay=0.2)
+                elif cmd == 4:
+                    obs['submits'] += 1
+                    conn.send(smppref.header(0x80000004, 0, seq, b'x%d\x00' % obs['submits']), delay=0.05)
+                    if obs['submits'] == 2:
+                        conn.send(receipt(9001, 'x1', variant), delay=2.0)
+                        conn.send(smppref.header(0x15, 0, 9002), delay=3.0)
+                        conn.send(receipt(9003, 'x2', 'plain'), delay=4.0)
+                elif cmd & 0x80000000:
+                    obs['answers'].append((conn.index, cmd, struct.unpack('>I', p[8:12])[0], seq))
+        smsc.on_pdu = on_pdu
+        src = PhoneNumber('38591')
+
+        async def main():
+            t = asyncio.create_task(esme.start())
+            await asyncio.sleep(0.5)
+            await esme.broker.enqueue(SubmitSm(short_message='s' * 300, source=src, destination=src, log_id='L', extra_data='X', auto_message_payload=False,
+                                               registered_delivery=1))
+            await asyncio.sleep(30.0)
+            obs['start_done'] = t.done()
+            obs['start_exc'] = repr(t.exception()) if t.done() and not t.cancelled() and t.exception() is not None else None
+            obs['conns'] = len(smsc.conns)
+            obs['receipts_at_hook'] = [(type(e[1]).__name__, getattr(e[1], 'log_id', None)) for e in hook.log
+                                       if e[0] == 'received' and struct.unpack('>I', e[2][4:8])[0] == 5]
+            if not t.done():
+                t.cancel()
+                try:
+                    await t
+                except BaseException:  # noqa: BLE001
+                    pass
+        loop.run_until_complete(main())
+    finally:
+        undo()
+        vsess.finish(loop)
+        if tmp:
+            shutil.rmtree(tmp, ignore_errors=True)
+    return obs
+
+
+def oracle_segment_receipt(obs):
+    if obs['start_done']:
+        return f'start() ended: {obs["start_exc"]}'
+    if obs['submits'] != 2:
+        return f'{obs["submits"]} submit_sm PDUs were written instead of 2'
+    for seq, what in ((9001, 'the unusual receipt'), (9002, 'the enquire_link after it'), (9003, 'the receipt of the second segment')):
+        a = [x for x in obs['answers'] if x[3] == seq]
+        if len(a) != 1:
+            return f'{what} (sequence number {seq}) got {len(a)} answers; {obs["conns"]} connection(s) were opened'
+        ci, cmd, st, _s = a[0]
+        if ci != 0:
+            return f'{what} was answered on connection {ci}'
+        if cmd == 0x80000000 and st == 0:
+            return f'{what} was answered with generic_nack ESME_ROK'
+    if obs['conns'] != 1:
+        return f'the session was dropped: {obs["conns"]} connections'
+    return None
+
+
 def oracle(chunks, eof, obs):
     """the property, with an independent framer: start() alive; every request with a recognised header answered once with its
     sequence number (generic_nack with an error status, or its own response); responses never answered"""
@@ -343,6 +439,19 @@ def run(ctx):
                 'correspondence': 'Model/Recv.v ser_stream_flat vs ESME.start()', 'input_term': inp[:2500], 'implementation_result': exp[:900]}, found_input=False)
         ctx.extra['correspondence_stream_cases'] = len(cases)
         ctx.extra['correspondence_stream_disagreements'] = len(bad)
+    # ---- receipts for a segment of an accepted segmented submit_sm: the one code path in which a receipt updates stored state (and, with a
+    #      persisting correlator, is serialised): unusual but parsable fields must not stop or drop the session
+    for variant in RECEIPT_VARIANTS:
+        for persist in (False, True):
+            obs = segment_receipt_session(variant, persist)
+            ctx.traces += 1
+            ctx.case(('segment_receipt', variant, persist), nontrivial=True)
+            ctx.count('segment_receipt_sessions')
+            msg = oracle_segment_receipt(obs)
+            if msg:
+                ctx.violation(f'receipt ({variant}) for the first segment of an accepted two-segment submit_sm'
+                              f'{", correlator persisted to a directory" if persist else ""}: {msg}',
+                              {'function': 'segment_receipt', 'variant': variant, 'persist': persist})
     return ctx.finish()
 
 
@@ -371,6 +480,12 @@ def replay(ctx, path):
         print('replay: start() done:', obs['start_done'], 'exception:', repr(obs['start_exc']), 'receiver:', obs['receiver_end'],
               'written:', [p.hex() for p in obs['written0'][1:]])
         print('oracle:', oracle(chunks, rp['eof'], obs))
+    elif rp.get('function') == 'segment_receipt':
+        obs = segment_receipt_session(rp['variant'], rp['persist'])
+        msg = oracle_segment_receipt(obs)
+        print('replay: answers (connection, command, status, sequence number):', obs['answers'], '; connections:', obs['conns'], '; start() ended:', obs['start_exc'])
+        print('replay:', msg or 'property holds on this input')
+        return 1 if msg else 0
     else:
         print('replay:', json.dumps(rp)[:1500])
     return 0
